@@ -41,7 +41,8 @@ func unitCases() (witnesses, rest []*pcase) {
 			rest = append(rest, c)
 		}
 	}
-	for i, u := range units {
+	all := append(append([]unit{}, units...), literalUnits()...)
+	for i, u := range all {
 		body := strings.TrimLeft(u.src, "\n")
 		in := func(ns string) string { return strings.ReplaceAll(body, "@NS@", ns) }
 		if !u.toplvl {
